@@ -3,7 +3,7 @@
    `reachable c s` = s is the state after SOME event list accepted by the parallel_safe transition system of
    configuration c (size, instances, argument entries, failing subset): all interleavings of the main thread and
    the member threads, with no bound on anything. *)
-From CF Require Import Common.Bytes C19.Model C19.Proofs C19.Proofs_b C19.Proofs_c C19.Proofs_d.
+From CF Require Import Common.Bytes C19.Model C19.Proofs C19.Proofs_b C19.Proofs_c C19.Proofs_d C19.Proofs_e.
 From Coq Require Import Permutation.
 Open Scope nat_scope.
 
@@ -116,3 +116,35 @@ Theorem C19_args_view : forall h d u, d <> [] ->
   ints (entry h (Some d) u) = match plookup d u with Some r => ints (obj h r) | None => [] end.
 Proof. exact process_args_view. Qed.
 Print Assumptions C19_args_view.
+
+(* Several runs in one process (same or different Swarm objects; error objects have process-wide identities):
+   every run has its own fresh reporter, so for EVERY history of runs, run k hands the caller an error iff it is not
+   `parallel` and one of run k's actions raised, and that error (the __cause__ of the report, or for sequential the
+   exception itself) is one of the errors raised IN RUN k. *)
+Theorem C19_each_run_chains_own_error : forall runs k kind errs,
+  nth_error runs k = Some (kind, errs) ->
+  exists o, nth_error (process_fresh runs) k = Some o /\
+    (forall e, o = Some e -> In e errs /\ kind <> KPar) /\
+    (o = None <-> kind = KPar \/ errs = []).
+Proof. exact each_run_chains_own_error. Qed.
+Print Assumptions C19_each_run_chains_own_error.
+
+(* a finished run of the transition system from `init` IS such an abstract run on its own error list *)
+Theorem C19_run_is_abstract_run : forall c s r, reachable c s -> result s = Some r -> finished r ->
+  r = match run_with fresh_reporter (errors s) with Some e => Raised (EChained e) | None => Returned end.
+Proof. exact lts_run_abstract. Qed.
+Print Assumptions C19_run_is_abstract_run.
+
+(* refutation of the alternative: with one error list shared by all reporters the clause fails from the second
+   failing run on (abstractly, and on the transition system started with a stale error in the list) *)
+Theorem C19_shared_reporter_refuted :
+  exists runs k kind errs e, nth_error runs k = Some (kind, errs) /\
+    nth_error (process_shared [] runs) k = Some (Some e) /\ ~ In e errs.
+Proof. exact shared_reporter_refuted. Qed.
+Print Assumptions C19_shared_reporter_refuted.
+
+Theorem C19_shared_reporter_refuted_lts :
+  exists c evs s e, run c (init_shared [e]) evs = Some s /\
+    result s = Some (Raised (EChained e)) /\ fails c e = false.
+Proof. exact shared_reporter_refuted_lts. Qed.
+Print Assumptions C19_shared_reporter_refuted_lts.
